@@ -25,7 +25,7 @@ tvars == <<s, tid, l>>
 T == Traces[tid]
 
 TInit == /\ tid \in 1..N /\ l = 1
-         /\ s = InitState([noise |-> T.cfg.noise, exp |-> T.cfg.exp, login |-> T.cfg.login, K |-> T.cfg.K, hist |-> FALSE])
+         /\ s = InitStateN([noise |-> T.cfg.noise, exp |-> T.cfg.exp, login |-> T.cfg.login, K |-> T.cfg.K, hist |-> FALSE], T.cfg.naddr)
 
 \* virtual time moves to the row's instant; no armed timer may be skipped
 Advance(x, t) == IF t > x.now THEN [x EXCEPT !.now = t] ELSE x
